@@ -1927,6 +1927,53 @@ def inline_self_expression_methods(P, fn, stmts):
 
         def visit_Lambda(self_, n):
             return n
+    def splice(call):
+        """`x = self.h(a)` with h = straight-line `t = E1; ...; return E2`: ([t__h = E1, ...], E2') -- evaluated exactly where the call stood"""
+        if not (isinstance(call, ast.Call) and isinstance(call.func, ast.Attribute) and isinstance(call.func.value, ast.Name) and call.func.value.id == 'self') or call.keywords:
+            return None
+        hit = P.lookup(owner, call.func.attr)
+        if not hit or hit[1] != 'method' or not call.func.attr.startswith('_'):
+            return None
+        fd = hit[2]
+        if fd is fn or fd.decorator_list or fd.args.vararg or fd.args.kwarg or fd.args.kwonlyargs or fd.args.defaults:
+            return None
+        body = [x for x in fd.body if not (isinstance(x, ast.Expr) and isinstance(x.value, ast.Constant))]
+        if len(body) < 2 or not isinstance(body[-1], ast.Return) or body[-1].value is None or \
+                not all(isinstance(b, ast.Assign) and len(b.targets) == 1 and isinstance(b.targets[0], ast.Name) for b in body[:-1]):
+            return None
+        ps = [a.arg for a in fd.args.args]
+        if not ps or ps[0] != 'self' or len(ps) - 1 != len(call.args) or not all(simple(a) for a in call.args):
+            return None
+        if any(fd.name in c.methods for c in P.subclasses(hit[0]) if c is not hit[0]):
+            return None
+        if any(isinstance(x, (ast.Lambda, ast.Yield, ast.Await, ast.NamedExpr, ast.ListComp, ast.GeneratorExp, ast.DictComp, ast.SetComp)) for b in body for x in ast.walk(b)):
+            return None
+        bind = dict(zip(ps[1:], call.args))
+        locs = {b.targets[0].id for b in body[:-1]}
+        if locs & set(bind):
+            return None
+        caller_names = {x.id for x in ast.walk(fn) if isinstance(x, ast.Name)}
+        ren = {nm: f'{nm}__{fd.name.strip("_")}' for nm in locs}
+        if set(ren.values()) & caller_names:
+            return None
+
+        class Put(ast.NodeTransformer):
+            def visit_Name(self_, x):
+                if x.id in bind and isinstance(x.ctx, ast.Load):
+                    return ast.copy_location(copy.deepcopy(bind[x.id]), x)
+                if x.id in ren:
+                    return ast.copy_location(ast.Name(id=ren[x.id], ctx=x.ctx), x)
+                return x
+        new = []
+        for b in body[:-1]:
+            nb = Put().visit(copy.deepcopy(b))
+            for x in ast.walk(nb):
+                ast.copy_location(x, call)
+            new.append(ast.fix_missing_locations(nb))
+        rv = Put().visit(copy.deepcopy(body[-1].value))
+        for x in ast.walk(rv):
+            ast.copy_location(x, call)
+        return new, ast.fix_missing_locations(rv)
     out, changed = [], False
     for st in stmts:
         st2 = st
@@ -1936,6 +1983,13 @@ def inline_self_expression_methods(P, fn, stmts):
                 st2 = copy.copy(st)
                 st2.value = r
                 changed = True
+            else:
+                sp = splice(st.value)
+                if sp is not None:
+                    out.extend(sp[0])
+                    st2 = copy.copy(st)
+                    st2.value = sp[1]
+                    changed = True
         if isinstance(st2, (ast.Expr, ast.Assign, ast.Return, ast.AugAssign)):
             tr = Pure()
             st3 = tr.visit(copy.deepcopy(st2))
